@@ -9,13 +9,13 @@ namespace Rpft.Compile
 open Rpft
 
 /-- postcondition of every arena-updating operation -/
-def APost (h : Prop) (s : St) : PUnit → St → Prop := fun _ s' => AInv h s' ∧ NExt s.nodes s'.nodes
+def APost (h : Flags) (s : St) : PUnit → St → Prop := fun _ s' => AInv h s' ∧ NExt s.nodes s'.nodes
 
 /-- an operation that keeps the invariants provided `d` is a valid destination -/
-def AStep (h : Prop) (d : Dest) (m : M PUnit) : Prop :=
+def AStep (h : Flags) (d : Dest) (m : M PUnit) : Prop :=
   ∀ s, AInv h s → DestOk s.nodes d → wp m s (APost h s)
 
-theorem AStep.forM {β} {h : Prop} {d : Dest} (l : List β) (f : β → M PUnit)
+theorem AStep.forM {β} {h : Flags} {d : Dest} (l : List β) (f : β → M PUnit)
     (hf : ∀ x ∈ l, AStep h d (f x)) : AStep h d (l.forM f) := by
   intro s a hd
   have := wp_forM (fun s' => AInv h s' ∧ NExt s.nodes s'.nodes) l f (by
@@ -25,7 +25,7 @@ theorem AStep.forM {β} {h : Prop} {d : Dest} (l : List β) (f : β → M PUnit)
     exact ⟨a2, e1.trans e2⟩) s ⟨a, NExt.refl _⟩
   exact this
 
-theorem AStep.pure (h : Prop) (d : Dest) : AStep h d (pure ()) := by
+theorem AStep.pure (h : Flags) (d : Dest) : AStep h d (pure ()) := by
   intro s a _; rw [wp_pure]; exact ⟨a, NExt.refl _⟩
 
 /-! ### read-only operations -/
@@ -91,13 +91,13 @@ theorem connectLoose_uid (n : NodeM) (d : Dest) : (n.connectLoose d).uid = n.uid
   unfold NodeM.connectLoose
   rcases h : n.router with _ | r | r <;> simp <;> split <;> rfl
 
-theorem connectLoose_ids (n : NodeM) (d : Dest) : (n.connectLoose d).ids = n.ids := by
+theorem connectLoose_fids (n : NodeM) (d : Dest) : (n.connectLoose d).fids = n.fids := by
   unfold NodeM.connectLoose
   rcases h : n.router with _ | r | r
-  · simp only; split <;> simp [NodeM.ids, NodeM.tailIds, h]
-  · simp only [NodeM.ids, NodeM.tailIds, h]
+  · simp only; split <;> simp [NodeM.fids, NodeM.innerIds, NodeM.tailIds, h]
+  · simp only [NodeM.fids, NodeM.innerIds, NodeM.tailIds, h]
     rw [ids_mapCats] <;> intro c <;> split <;> rfl
-  · simp only [NodeM.ids, NodeM.tailIds, h, RandomR.ids, List.map_map, Function.comp_def]
+  · simp only [NodeM.fids, NodeM.innerIds, NodeM.tailIds, h, RandomR.ids, List.map_map, Function.comp_def]
     have e1 : ∀ c : Cat, (if (c.dest == Dest.none) = true then ({ c with dest := d } : Cat) else c).exitUid = c.exitUid := by
       intro c; split <;> rfl
     have e2 : ∀ c : Cat, (if (c.dest == Dest.none) = true then ({ c with dest := d } : Cat) else c).uid = c.uid := by
@@ -134,15 +134,15 @@ theorem connectLoose_ok {ns : Array NodeM} {n : NodeM} {d : Dest} (hn : NodeOk n
       · exact hn.dests _ (by simp only [NodeM.exitDests, h, List.mem_map]; exact ⟨c, hc, rfl⟩)
     · intro r' hr'; simp at hr'
 
-theorem connectNode_spec (h : Prop) (i : Nat) (d : Dest) : AStep h d (connectNode i d) := by
+theorem connectNode_spec (h : Flags) (i : Nat) (d : Dest) : AStep h d (connectNode i d) := by
   intro s a hd
   unfold connectNode
   wp_simp [wp_getNode, wp_setNode]
   intro n hn
   exact ⟨a.set hn (connectLoose_uid _ _) (connectLoose_ok (a.ok i n hn) hd)
-    (by rw [connectLoose_ids]; exact Grow.refl _ _ _) (Nat.le_refl _), NExt.set hn (connectLoose_uid _ _)⟩
+    (by rw [connectLoose_fids]; exact Grow.refl _ _ _) (Nat.le_refl _), NExt.set hn (connectLoose_uid _ _)⟩
 
-theorem connectLoose_spec (h : Prop) (d : Dest) : ∀ fuel g, AStep h d (connectLoose fuel g d) := by
+theorem connectLoose_spec (h : Flags) (d : Dest) : ∀ fuel g, AStep h d (connectLoose fuel g d) := by
   intro fuel
   induction fuel with
   | zero => intro g s a hd; unfold connectLoose; wp_simp
@@ -169,7 +169,7 @@ theorem nodeOk_sw {ns : Array NodeM} {n : NodeM} {r : SwitchR} (hr : n.router = 
   exact hn.dests _ (by simp only [NodeM.exitDests, hr, List.mem_map]; exact ⟨c, hc, rfl⟩)
 
 /-- replacing the switch router of an arena node -/
-theorem AInvC.setSw {h : Prop} {ns : Array NodeM} {b b' i : Nat} {n : NodeM} {r r' : SwitchR}
+theorem AInvC.setSw {h : Flags} {ns : Array NodeM} {b b' i : Nat} {n : NodeM} {r r' : SwitchR}
     (a : AInvC h ns b) (ho : ns[i]? = some n) (hr : n.router = some (.sw r))
     (hg : Grow b b' r.ids r'.ids) (hd : SwD (DestOk ns) r') (hc : CaseCatsOk r') (hb : b ≤ b') :
     AInvC h (ns.setIfInBounds i { n with router := some (.sw r') }) b' := by
@@ -179,11 +179,11 @@ theorem AInvC.setSw {h : Prop} {ns : Array NodeM} {b b' i : Nat} {n : NodeM} {r 
     obtain ⟨c, hc1, rfl⟩ := hdd
     exact hd c hc1
   · intro r2 hr2; simp at hr2; subst hr2; exact hc
-  · simp only [NodeM.ids, NodeM.tailIds, hr]
-    have := hg.ctx (n.uid :: n.actions.map (·.1)) []
+  · simp only [NodeM.fids, NodeM.innerIds, NodeM.tailIds, hr]
+    have := hg.ctx (uidPart n.uid ++ n.actions.map (·.1)) []
     simpa using this
 
-theorem AInvC.setRnd {h : Prop} {ns : Array NodeM} {b b' i : Nat} {n : NodeM} {r r' : RandomR}
+theorem AInvC.setRnd {h : Flags} {ns : Array NodeM} {b b' i : Nat} {n : NodeM} {r r' : RandomR}
     (a : AInvC h ns b) (ho : ns[i]? = some n) (hr : n.router = some (.rnd r))
     (hg : Grow b b' r.ids r'.ids) (hd : ∀ c ∈ r'.cats, DestOk ns c.dest) (hb : b ≤ b') :
     AInvC h (ns.setIfInBounds i { n with router := some (.rnd r') }) b' := by
@@ -193,14 +193,14 @@ theorem AInvC.setRnd {h : Prop} {ns : Array NodeM} {b b' i : Nat} {n : NodeM} {r
     obtain ⟨c, hc1, rfl⟩ := hdd
     exact hd c hc1
   · intro r2 hr2; simp at hr2
-  · simp only [NodeM.ids, NodeM.tailIds, hr]
-    have := hg.ctx (n.uid :: n.actions.map (·.1)) []
+  · simp only [NodeM.fids, NodeM.innerIds, NodeM.tailIds, hr]
+    have := hg.ctx (uidPart n.uid ++ n.actions.map (·.1)) []
     simpa using this
 
 /-- a router update in the sense of `ChoiceRel` -/
 def SwUpd (d : Dest) (f : SwitchR → M SwitchR) : Prop := ∀ r s, wp (f r) s (ChoiceRel s r d)
 
-theorem updSwitch_spec (h : Prop) (i : Nat) (d : Dest) (f : SwitchR → M SwitchR) (hf : SwUpd d f) :
+theorem updSwitch_spec (h : Flags) (i : Nat) (d : Dest) (f : SwitchR → M SwitchR) (hf : SwUpd d f) :
     AStep h d (updSwitch i f) := by
   intro s a hd
   unfold updSwitch
@@ -243,15 +243,15 @@ theorem swUpd_addChoice (var type : Str) (args : List (Option Str)) (catName : S
 /-! ### `add_exit` of a row group -/
 
 theorem grow_dexit (n : NodeM) (b b' k : Nat) (d : Dest) (h1 : b ≤ k) (h2 : k < b') :
-    Grow b b' n.ids ({ n with dexitUid := tid k, dexitDest := d } : NodeM).ids := by
+    Grow b b' n.fids ({ n with dexitUid := tid k, dexitDest := d } : NodeM).fids := by
   rcases hr : n.router with _ | r | r
-  · simp only [NodeM.ids, NodeM.tailIds, hr]
-    have : Grow b b' (n.uid :: (n.actions.map (·.1) ++ [])) (n.uid :: (n.actions.map (·.1) ++ [tid k])) := by
+  · simp only [NodeM.fids, NodeM.innerIds, NodeM.tailIds, hr]
+    have : Grow b b' (uidPart n.uid ++ (n.actions.map (·.1) ++ [])) (uidPart n.uid ++ (n.actions.map (·.1) ++ [tid k])) := by
       grow_new [tid k]
     refine this.mono_left ?_
     intro x; simp only [List.count_cons, List.count_append, List.count_nil]; omega
-  · simp only [NodeM.ids, NodeM.tailIds, hr]; exact Grow.refl _ _ _
-  · simp only [NodeM.ids, NodeM.tailIds, hr]; exact Grow.refl _ _ _
+  · simp only [NodeM.fids, NodeM.innerIds, NodeM.tailIds, hr]; exact Grow.refl _ _ _
+  · simp only [NodeM.fids, NodeM.innerIds, NodeM.tailIds, hr]; exact Grow.refl _ _ _
 
 theorem nodeOk_dexit {ns : Array NodeM} {n : NodeM} {d : Dest} (u : Uid) (hn : NodeOk ns n) (hd : DestOk ns d) :
     NodeOk ns ({ n with dexitUid := u, dexitDest := d } : NodeM) := by
@@ -262,7 +262,7 @@ theorem nodeOk_dexit {ns : Array NodeM} {n : NodeM} {d : Dest} (u : Uid) (hn : N
   · exact hn.dests d' (by simpa [NodeM.exitDests, hr] using hd')
   · exact hn.dests d' (by simpa [NodeM.exitDests, hr] using hd')
 
-theorem rowExitBlank_spec (h : Prop) (i : Nat) (n : NodeM) (d : Dest) (s : St)
+theorem rowExitBlank_spec (h : Flags) (i : Nat) (n : NodeM) (d : Dest) (s : St)
     (a : AInv h s) (hd : DestOk s.nodes d) (hn : s.nodes[i]? = some n) :
     wp (rowExitBlank i n d) s (APost h s) := by
   unfold rowExitBlank
@@ -273,21 +273,21 @@ theorem rowExitBlank_spec (h : Prop) (i : Nat) (n : NodeM) (d : Dest) (s : St)
   · wp_simp
   · exact updSwitch_spec h i d _ (swUpd_setDflt d) s a hd
 
-theorem rowExitEnter_spec (h : Prop) (i : Nat) (c : Cond) (d : Dest) : AStep h d (rowExitEnter i c d) := by
+theorem rowExitEnter_spec (h : Flags) (i : Nat) (c : Cond) (d : Dest) : AStep h d (rowExitEnter i c d) := by
   intro s a hd
   unfold rowExitEnter
   wp_simp
   exact ⟨fun _ => updSwitch_spec h i d _ (swUpd_byName _ d) s a hd,
     fun _ => ⟨fun _ => updSwitch_spec h i d _ (swUpd_setDflt d) s a hd, fun _ => trivial⟩⟩
 
-theorem rowExitHook_spec (h : Prop) (i : Nat) (c : Cond) (d : Dest) : AStep h d (rowExitHook i c d) := by
+theorem rowExitHook_spec (h : Flags) (i : Nat) (c : Cond) (d : Dest) : AStep h d (rowExitHook i c d) := by
   intro s a hd
   unfold rowExitHook
   wp_simp
   exact ⟨fun _ => updSwitch_spec h i d _ (swUpd_byName _ d) s a hd,
     fun _ => ⟨fun _ => updSwitch_spec h i d _ (swUpd_setDflt d) s a hd, fun _ => trivial⟩⟩
 
-theorem rowExitNoResp_spec (h : Prop) (i : Nat) (n : NodeM) (d : Dest) (s : St)
+theorem rowExitNoResp_spec (h : Flags) (i : Nat) (n : NodeM) (d : Dest) (s : St)
     (a : AInv h s) (hd : DestOk s.nodes d) (hn : s.nodes[i]? = some n) :
     wp (rowExitNoResp i n d) s (APost h s) := by
   unfold rowExitNoResp
@@ -335,7 +335,7 @@ theorem nodeOk_newSw {ns : Array NodeM} (u e : Uid) (sw : SwitchR) (hd : SwD (De
 theorem swD_none {ns : Array NodeM} {sw : SwitchR} (h : SwD (· = Dest.none) sw) : SwD (DestOk ns) sw := by
   intro c hc; rw [h c hc]; trivial
 
-theorem routerBehind_spec (h : Prop) (g : Nat) (nodes : List Nat) (rowType : Str) (i : Nat) (n : NodeM)
+theorem routerBehind_spec (h : Flags) (g : Nat) (nodes : List Nat) (rowType : Str) (i : Nat) (n : NodeM)
     (operandV : Str) (waitT : Option Nat) (s : St) (a : AInv h s) (hn : s.nodes[i]? = some n) :
     wp (routerBehind g nodes rowType i n operandV waitT) s (fun jn s' =>
       AInv h s' ∧ NExt s.nodes s'.nodes ∧ s'.nodes[jn.1]? = some jn.2) := by
@@ -353,14 +353,14 @@ theorem routerBehind_spec (h : Prop) (g : Nat) (nodes : List Nat) (rowType : Str
   rw [← hrn]
   have hrnu : rn.uid = tid s.next := by rw [hrn]
   have a1 : AInvC h (s.nodes.push rn) (s.next + 1 + k + 1) := by
-    refine AInvC.push a ?_ ?_ (by omega)
+    refine AInvC.push a ?_ ?_ (fun _ => by rw [hrnu]; exact invented_tid _) (by omega)
     · rw [hrn]
       exact nodeOk_newSw _ _ _ (swD_setDflt (hok.dexit.ext (NExt.push _ _)) (swD_none hd))
         (caseCatsOk_setDflt _ (caseCatsOk_of_cases_nil hc))
     · intro _
-      rw [hrn, ids_swNode, ids_setDflt]
+      rw [hrn, fids_swNode, ids_setDflt, uidPart_tid]
       have h1 : Grow s.next (s.next + 1) [] [tid s.next] := by grow_new [tid s.next]
-      exact (grow_cons_append h1 hg (by omega) (by omega)).mono (by omega) (by omega)
+      simpa using (grow_cons_append h1 hg (by omega) (by omega)).mono (by omega) (by omega)
   have hn1 : (s.nodes.push rn)[i]? = some n := getElem?_push_of_some rn hn
   have a2 := AInvC.set (b' := s.next + 1 + k + 1 + 1) (n' := { n with dexitUid := tid (s.next + 1 + k + 1), dexitDest := .node (tid s.next) })
     a1 hn1 rfl (nodeOk_dexit _ ((a.ok i n hn).ext (NExt.push _ _)) (by rw [← hrnu]; exact DestOk.push_self _ _))
@@ -370,7 +370,7 @@ theorem routerBehind_spec (h : Prop) (g : Nat) (nodes : List Nat) (rowType : Str
   have : i ≠ s.nodes.size := by omega
   simp [this]
 
-theorem nodeAddChoice_spec (h : Prop) (i : Nat) (n : NodeM) (operandV ctype : Str)
+theorem nodeAddChoice_spec (h : Flags) (i : Nat) (n : NodeM) (operandV ctype : Str)
     (args : List (Option Str)) (c : Cond) (d : Dest) (s : St) (a : AInv h s) (hd : DestOk s.nodes d)
     (hn : s.nodes[i]? = some n) :
     wp (nodeAddChoice i n operandV ctype args c d) s (APost h s) := by
@@ -394,7 +394,7 @@ theorem nodeAddChoice_spec (h : Prop) (i : Nat) (n : NodeM) (operandV ctype : St
     exact ⟨AInvC.setRnd a hn hr hg (hdd _ hd h1) (by simp), NExt.set hn rfl⟩
   · wp_simp
 
-theorem rowExitCond_spec (h : Prop) (g : Nat) (nodes : List Nat) (rowType : Str) (i : Nat) (n : NodeM)
+theorem rowExitCond_spec (h : Flags) (g : Nat) (nodes : List Nat) (rowType : Str) (i : Nat) (n : NodeM)
     (d : Dest) (c : Cond) (s : St) (a : AInv h s) (hd : DestOk s.nodes d) (hn : s.nodes[i]? = some n) :
     wp (rowExitCond g nodes rowType i n d c) s (APost h s) := by
   unfold rowExitCond
@@ -409,7 +409,7 @@ theorem rowExitCond_spec (h : Prop) (g : Nat) (nodes : List Nat) (rowType : Str)
   · intro _
     exact nodeAddChoice_spec h _ _ _ _ _ _ _ s a hd hn
 
-theorem rowAddExit_spec (h : Prop) (g : Nat) (nodes : List Nat) (rowType : Str) (d : Dest) (c : Cond) :
+theorem rowAddExit_spec (h : Flags) (g : Nat) (nodes : List Nat) (rowType : Str) (d : Dest) (c : Cond) :
     AStep h d (rowAddExit g nodes rowType d c) := by
   intro s a hd
   unfold rowAddExit
@@ -426,14 +426,14 @@ theorem rowAddExit_spec (h : Prop) (g : Nat) (nodes : List Nat) (rowType : Str) 
 
 /-! ### `add_exit` of any group -/
 
-theorem noopRouterExit_spec (h : Prop) (j : Nat) (d : Dest) (c : Cond) : AStep h d (noopRouterExit j d c) := by
+theorem noopRouterExit_spec (h : Flags) (j : Nat) (d : Dest) (c : Cond) : AStep h d (noopRouterExit j d c) := by
   intro s a hd
   unfold noopRouterExit
   wp_simp
   exact ⟨fun _ => updSwitch_spec h j d _ (swUpd_setDflt d) s a hd,
     fun _ => updSwitch_spec h j d _ (swUpd_addChoice _ _ _ _ d false) s a hd⟩
 
-theorem connectIfLoose_spec (h : Prop) (fuel : Nat) (d : Dest) (ch : Nat) :
+theorem connectIfLoose_spec (h : Flags) (fuel : Nat) (d : Dest) (ch : Nat) :
     AStep h d (connectIfLoose fuel d ch) := by
   intro s a hd
   unfold connectIfLoose
@@ -442,7 +442,7 @@ theorem connectIfLoose_spec (h : Prop) (fuel : Nat) (d : Dest) (ch : Nat) :
   intro b
   exact ⟨fun _ => connectLoose_spec h d fuel ch s a hd, fun _ => AStep.pure h d s a hd⟩
 
-theorem addExit_spec (h : Prop) : ∀ fuel g d c, AStep h d (addExit fuel g d c) := by
+theorem addExit_spec (h : Flags) : ∀ fuel g d c, AStep h d (addExit fuel g d c) := by
   intro fuel
   induction fuel with
   | zero => intro g d c s a hd; unfold addExit; wp_simp
@@ -472,13 +472,13 @@ theorem addExit_spec (h : Prop) : ∀ fuel g d c, AStep h d (addExit fuel g d c)
         rw [← hrn]
         have hrnu : rn.uid = tid s.next := by rw [hrn]
         have a1 : AInvC h (s.nodes.push rn) (s.next + 1 + k + 1) := by
-          refine AInvC.push a ?_ ?_ (by omega)
+          refine AInvC.push a ?_ ?_ (fun _ => by rw [hrnu]; exact invented_tid _) (by omega)
           · rw [hrn]
             exact nodeOk_newSw _ _ _ (swD_none hdn) (caseCatsOk_of_cases_nil hc)
           · intro _
-            rw [hrn, ids_swNode]
+            rw [hrn, fids_swNode, uidPart_tid]
             have h1 : Grow s.next (s.next + 1) [] [tid s.next] := by grow_new [tid s.next]
-            exact (grow_cons_append h1 hg (by omega) (by omega)).mono (by omega) (by omega)
+            simpa using (grow_cons_append h1 hg (by omega) (by omega)).mono (by omega) (by omega)
         have e1 : NExt s.nodes (s.nodes.push rn) := NExt.push _ _
         have hdu : DestOk (s.nodes.push rn) (.node (tid s.next)) := by
           rw [← hrnu]; exact DestOk.push_self _ _
